@@ -113,18 +113,18 @@ impl MqttState {
             }
         }
 
-        // a publish still waiting for its packet id is carried over as well. It keeps
-        // that id, so on replay it waits again behind the publish holding the id
-        if let Some(publish) = self.collision.take() {
-            pending.push(Request::Publish(publish));
-        }
-
         // remove and collect pending releases
         for pkid in self.outgoing_rel.ones() {
             let request = Request::PubRel(PubRel::new(pkid as u16));
             pending.push(request);
         }
         self.outgoing_rel.clear();
+
+        // a publish still waiting for its packet id is carried over as well, behind the
+        // publish or release holding that id: it keeps the id, so on replay it waits again
+        if let Some(publish) = self.collision.take() {
+            pending.push(Request::Publish(publish));
+        }
 
         // remove packet ids of incoming qos2 publishes
         self.incoming_pub.clear();
